@@ -1,31 +1,62 @@
 """C04 — aggregates are component-wise (T-route).
 
 Translator: harness/sym/sym_c04.cpp instantiates the real templates at T = Sym
-and emits lean/ImathVerif/Gen/C04*.lean on every run; Props/C04.lean is
-re-elaborated against them.  Translator validation compares the extracted
-trees with the real instantiations at all seven element types, bit for bit;
-static layout assertions are compiled against the current headers."""
-import os
+and emits lean/ImathVerif/Gen/C04*.lean on every run; Props/C04*.lean are
+re-elaborated against them, and EVERY extracted entry must have its theorem.
+Translator validation compares the extracted trees with the real instantiations
+at all seven element types, bit for bit (equalWith* in the promoted type, division
+with zeros / inf / NaN at the floating types, conversions at four narrowing
+pairs against the scalar static_cast); static layout and interop-selection
+assertions are compiled against the current headers; the stream-output clause is
+run end to end on the real element types."""
+import os, re, struct
 import lib, troute
 
 IMPORTS = ["ImathVerif.Basic.Maps", "ImathVerif.Gen.C04Vec", "ImathVerif.Gen.C04Color", "ImathVerif.Gen.C04Shear",
            "ImathVerif.Gen.C04Quat", "ImathVerif.Gen.C04Mat"]
+PROPS_OF_MODULE = {"C04Show": "ImathVerif.Props.C04Show", "C04Alias": "ImathVerif.Props.C04Alias"}   # every other Gen module: Props.C04
+CONSTEVAL_MIN = 108          # Vec2/3/4 x (2+3+4 indices) x 2 evaluation modes x 6 element types
+SHOWCHECK_MIN = 720          # 10 types x 6 non-character element types x 3 stream states x 4 value variants
+ELEMENT_TYPES = ["double", "float", "half", "int", "int64", "short", "uchar"]
+CAST_PAIRS = ["double>float", "float>half", "double>int", "int>uchar"]
+
+
+def theorem_name(entry):
+    return entry.replace(".", "_")
+
+
+def f32(x):
+    return struct.unpack("f", struct.pack("f", x))[0]
 
 
 def run(chk):
     chk.trusted = ["Lean 4.33 kernel; axioms propext/Classical.choice/Quot.sound at most",
                    "translator harness/sym (Sym operator overloads + Lean emitter), validated on every run by TV at 7 element types",
-                   "g++ instantiating the real templates at T = Sym means the same as at the element types up to the scalar operators (TV checks)"]
-    chk.assumptions = ["the scalar operators of each element type (incl. integer promotion, half's float round trip) are what 'the scalar operation' means"]
-    chk.rule = ("every registered (type, operator, spelling) entry is path-extracted from the current headers; TV inputs: small integers, "
-                "reals, unit vectors, signed zeros, extremes, NaN/inf (branch-free entries), full-range values for short/uchar; "
-                "non-trivial = every TV evaluation (all have non-constant inputs)")
+                   "g++ instantiating the real templates at T = Sym means the same as at the element types up to the scalar operators (TV checks)",
+                   "harness/sym/ops_c04.h generators and the two-type evaluator of the conversion entries (slot casts only; anything else is a failure)"]
+    chk.assumptions = ["the scalar operators of each element type (incl. integer promotion, half's float round trip) are what 'the scalar operation' means",
+                       "equalWithAbs/RelError: C++ evaluates the comparison in the promoted type (int for short/unsigned char, float for half); the "
+                       "theorems' scalar type is that type there, and TV evaluates the tree in it",
+                       "'component-wise cast' = the scalar static_cast S -> T applied to each slot; the theorems hold for any function `cast`",
+                       "stream output: right adjustment, space fill, no pending width (three stream states: default, fixed/precision 3, scientific/precision 9); "
+                       "a matrix element's 'own printed form' is its form under the flags the matrix operator sets (scientific unless fixed, showpoint)",
+                       "not covered: operator== / != / scalar * with an operand of a DIFFERENT element type (S != T: mixed arithmetic in the common type)"]
+    chk.rule = ("every registered (type, operator, spelling) entry is path-extracted from the current headers and must have a theorem named after it; "
+                "TV inputs: small integers, reals, unit vectors, signed zeros, extremes, NaN/inf (branch-free entries), full-range values for "
+                "short/uchar; equalWith*: twins (equal / one slot differing / within or just beyond e), every leaf of every tree reached; division at "
+                "double/float/half: +-0, +-inf, NaN, denormal, max in both operands; conversions: rounding ties, denormals, overflow, truncation, wrap; "
+                "non-trivial = TV evaluation whose inputs are not all equal")
     bins = troute.build_extractors(chk, [dict(name="sym_c04", source="sym/sym_c04.cpp", half=True),
                                          dict(name="c04_layout", source="corr/c04_layout.cpp", half=True)])
     if bins.get("c04_layout"):
         rc, out = lib.sh([bins["c04_layout"]])
-        chk.oblige("layout: sizeof/offsetof/standard_layout for every (type, element type)", "static-assert", rc == 0, out[-300:])
+        m = re.search(r"(\d+) layout assertions and (\d+) interop-selection assertions", out)
+        ok = rc == 0 and m is not None and int(m.group(1)) >= 280 and int(m.group(2)) >= 315
+        name = "layout: sizeof/offsetof/standard_layout for every (type, element type); interop constructors/assignments selected exactly for the right element type and count"
+        chk.oblige(name, "static-assert", ok, out[-300:])
         chk.extra["layout_asserts"] = out.strip().split("\n")[-1]
+        if not ok:
+            chk.fail(name, "layout:harness", "the layout harness ran but did not report the expected number of assertions", {"output": out[-500:]}, False)
     # build-configuration dimension: the C++23-only `if consteval` bodies of Vec2/3/4::operator[] const
     ok, cebin, celog = lib.cxx_build("c04_consteval", ["corr/c04_consteval.cpp"],
                                      lang_flags=["-std=c++23", "-O1", "-I" + os.path.join(lib.REPO, "src", "Imath"), "-I" + lib.imath_config_dir()])
@@ -36,49 +67,195 @@ def run(chk):
     else:
         rc, out = lib.sh([cebin])
         bad = [l for l in out.split("\n") if l.startswith("CONSTEVAL-FAIL")]
-        name = "consteval: v[i] in constant evaluation = run-time v[i] = i-th named member (Vec2/3/4 x 6 element types, C++23)"
-        chk.oblige(name, "correspondence", rc == 0 and not bad, out[-300:])
+        m = re.search(r"(\d+) subscript evaluations", out)
+        n_eval = int(m.group(1)) if m else 0
+        name = "consteval: v[i] in constant evaluation = run-time v[i] = i-th named member (Vec2/3/4 x 6 element types, C++23; >= %d evaluations)" % CONSTEVAL_MIN
+        chk.oblige(name, "correspondence", rc == 0 and not bad and n_eval >= CONSTEVAL_MIN, out[-300:])
         chk.extra["consteval"] = out.strip().split("\n")[-1]
+        chk.count(n_eval, n_eval)
         if bad or rc != 0:
             chk.fail(name, "consteval:" + (bad[0].split(" index ")[0].replace("CONSTEVAL-FAIL ", "") if bad else "harness"),
                      "operator[] const evaluated in a constant expression (C++23 `if consteval` body) does not return the i-th member",
                      {"mismatches": bad[:12], "replay_cmd": "g++ -std=c++23 -O1 -I<repo>/src/Imath -I<cfg> harness/corr/c04_consteval.cpp && ./a.out"}, bool(bad))
+        elif n_eval < CONSTEVAL_MIN:
+            chk.fail(name, "consteval:vacuous", "the consteval harness ran %d subscript evaluations (< %d): the compiler does not define __cpp_if_consteval "
+                     "or the harness lost cases, so the C++23 bodies were not exercised" % (n_eval, CONSTEVAL_MIN), {"output": out[-400:]}, False)
     if not bins.get("sym_c04"):
         return
     index, changed = troute.regenerate(chk, bins["sym_c04"], "c04")
-    troute.tv(chk, bins["sym_c04"], "c04", 400 if chk.thorough else 64)
+    stats_file = os.path.join(lib.BUILD, "c04_tvstats_%d.txt" % os.getpid())
+    os.environ["C04_STATS_FILE"] = stats_file
+    try:
+        tv_ok = troute.tv(chk, bins["sym_c04"], "c04", 400 if chk.thorough else 64)
+    finally:
+        os.environ.pop("C04_STATS_FILE", None)
+    stats = {}
+    if os.path.exists(stats_file):
+        for l in open(stats_file):
+            k, _, v = l.strip().partition("=")
+            if v.lstrip("-").isdigit():
+                stats[k] = int(v)
+        os.remove(stats_file)
+    chk.extra["tv_generator_hits"] = stats
+    # generator reach, as obligations with hit counts
+    per_type = (chk.extra.get("tv", {}).get("c04", {}) or {}).get("per_type", {})
+    n_entries = len(index)
+    n_cast = sum(1 for d in index if "cast" in (d.get("extra") or "").split(","))
+
+    def reach(name, ok, detail, key, what):
+        chk.oblige(name, "generator-reach", ok, detail)
+        if not ok:
+            chk.fail(name, key, what, {"hit_counts": detail}, False)
+    got_types = dict((t, int(v)) for t, v in per_type.items())
+    reach("tv-reach: every entry validated at all seven element types (conversion entries at the four narrowing pairs)",
+          # (a validator stops at an entry's first failing input: the counts are only comparable when TV itself passed)
+          not tv_ok or (all(got_types.get(t, 0) > 0 for t in ELEMENT_TYPES + CAST_PAIRS) and len(set(got_types.get(t, 0) for t in ELEMENT_TYPES)) == 1),
+          got_types, "tv-reach:element-types", "an element type is missing from translator validation or entries are validated at fewer types than others")
+    eq = dict((t, (stats.get("eqerr.%s.true" % t, 0), stats.get("eqerr.%s.false" % t, 0))) for t in ELEMENT_TYPES)
+    reach("tv-reach: equalWithAbs/RelError take both outcomes at each of the seven element types, every leaf of all %d trees is reached, "
+          "short/uchar operands whose difference wraps in T, NaN/inf at the floating types" % stats.get("eqerr.entries", 0),
+          all(a >= 50 and b >= 50 for a, b in eq.values()) and stats.get("eqerr.entries", 0) == 14
+          and stats.get("eqerr.entries_with_every_leaf_reached", -1) == stats.get("eqerr.entries", 0)
+          and all(stats.get("eqerr.%s.difference_wraps_in_T" % t, 0) >= 20 for t in ("short", "uchar"))
+          and all(stats.get("eqerr.%s.naninf" % t, 0) >= 20 for t in ("double", "float", "half")),
+          dict((k, v) for k, v in stats.items() if k.startswith("eqerr.")), "tv-reach:equalWith",
+          "the equalWith* generator no longer reaches both outcomes / every leaf / the wrapping operands at every element type")
+    paths = getattr(chk, "tv_paths", {}).get("c04", {})
+    partial = sorted("%s %d/%d" % (k, v[0], v[1]) for k, v in paths.items() if v[0] != v[1])
+    reach("tv-reach: every leaf of every branching tree (==, !=, equalWithAbs/RelError: %d trees, %d leaves) is reached by the twin generators"
+          % (len(paths), sum(v[1] for v in paths.values())),
+          len(paths) >= 32 and not partial and all(stats.get("eq.%s.%s" % (t, c), 0) >= 50 for t in ("double", "float", "half")
+                                                   for c in ("plus_zero_vs_minus_zero", "nan_vs_itself")),
+          partial[:10] or dict((k, v) for k, v in stats.items() if k.startswith("eq.")), "tv-reach:leaves",
+          "some leaves of the comparison trees are no longer reached by translator validation (a translator slip there would be invisible)")
+    reach("tv-reach: division entries see zero, infinite and NaN operands at double, float and half",
+          all(stats.get("div.%s.%s" % (t, c), 0) >= 100 for t in ("double", "float", "half") for c in ("zero", "inf", "nan")),
+          dict((k, v) for k, v in stats.items() if k.startswith("div.")), "tv-reach:division",
+          "the division generator no longer feeds +-0 / inf / NaN at the floating element types")
+    reach("tv-reach: conversion entries see inputs the cast changes (rounding, truncation, wrap) at each narrowing pair",
+          all(stats.get("cast.%s.with_an_inexact_slot" % p, 0) >= 100 and stats.get("cast.%s.evaluations" % p, 0) >= n_cast for p in CAST_PAIRS),
+          dict((k, v) for k, v in stats.items() if k.startswith("cast.")), "tv-reach:conversions",
+          "the conversion generator no longer produces inputs on which the scalar cast is not the identity")
     troute.lean_tv(chk, bins["sym_c04"], "c04", index, n=6 if chk.thorough else 2)
 
-    def search(name):
-        return troute.lean_search(chk, "ImathVerif.Props.C04", name, IMPORTS, ["ImathVerif"], binary=bins["sym_c04"])
-    chk.check_theorems("ImathVerif.Props.C04", search=search)
+    # stream output, end to end on the real element types (standing check, not only after a theorem failed)
+    rc, out = lib.sh([bins["sym_c04"], "showcheck", str(chk.seed)], timeout=600)
+    m = re.search(r"SHOWCHECK cases=(\d+) tokens=(\d+) failures=(\d+) uchar_cases=(\d+) uchar_with_non_token_components=(\d+)", out)
+    sfails = [l for l in out.split("\n") if l.startswith("SHOW-FAIL")]
+    name = ("show-e2e: text printed by the real operator<< tokenises to one token per component, in order, each equal to the component's own "
+            "printed form (10 types x 6 non-character element types x 3 stream states x 4 values; proper tokens; layout; stream state restored)")
+    ok = rc == 0 and m is not None and int(m.group(3)) == 0 and not sfails and int(m.group(1)) >= SHOWCHECK_MIN
+    chk.oblige(name, "correspondence", ok, (sfails[:3] or out[-300:]) if not ok else None)
+    if m:
+        chk.count(int(m.group(1)), int(m.group(1)))
+        chk.extra["show_e2e"] = {"cases": int(m.group(1)), "tokens": int(m.group(2)), "failures": int(m.group(3)),
+                                 "unsigned_char_cases_reported_only": int(m.group(4)),
+                                 "unsigned_char_cases_with_a_component_that_is_not_a_token": int(m.group(5))}
+    seen = set()
+    for l in sfails:
+        mm = re.match(r"SHOW-FAIL (\S+?)<(\S+?)> state=(\d) :: (.*?) :: text=(.*?) :: tokens=(.*?) :: components_printed_alone=(.*)", l)
+        if not mm:
+            continue
+        ty, el, st, why, text, toks, alone = mm.groups()
+        key = "show-e2e:%s:%s" % (ty, ["default", "fixed", "scientific"][int(st)])
+        if key in seen:
+            continue
+        seen.add(key)
+        chk.fail(name, key, "%s<%s> printed through operator<<: %s" % (ty, el, why),
+                 {"type": ty, "element_type": el, "stream_state": ["default", "fixed precision 3", "scientific precision 9"][int(st)],
+                  "printed_text": text, "tokens": toks, "components_printed_alone": alone,
+                  "replay_cmd": ".build/bin/sym_c04 showcheck %d" % chk.seed}, True)
+    if not ok and not sfails:
+        chk.fail(name, "show-e2e:harness", "the end-to-end stream-output check did not run to completion or ran too few cases", {"output": out[-600:]}, False)
 
-    def search_show(name):
+    # ---- theorems: one per extracted entry, required
+    required = {"ImathVerif.Props.C04": [], "ImathVerif.Props.C04Show": [], "ImathVerif.Props.C04Alias": []}
+    for d in index:
+        required[PROPS_OF_MODULE.get(d.get("module"), "ImathVerif.Props.C04")].append(theorem_name(d["name"]))
+    declared = {}
+    for mod in required:
+        declared[mod] = set(n for (n, _, _) in lib.theorems_in(os.path.join(lib.LEAN, *mod.split(".")) + ".lean"))
+    missing = [(d["name"], PROPS_OF_MODULE.get(d.get("module"), "ImathVerif.Props.C04")) for d in index
+               if theorem_name(d["name"]) not in declared[PROPS_OF_MODULE.get(d.get("module"), "ImathVerif.Props.C04")]]
+    entry_names = set(theorem_name(d["name"]) for d in index)
+    name = "coverage: every one of the %d extracted entries has a theorem named after it in its Props file" % len(index)
+    chk.oblige(name, "coverage", not missing and len(index) >= 429, [m_[0] for m_ in missing][:20] or None)
+    chk.extra["theorems_without_entry"] = sorted(n for mod in declared for n in declared[mod] if n not in entry_names)[:40]
+    for en, mod in missing:
+        chk.fail(name, "missing:" + theorem_name(en), "extracted entry %s has no theorem %s in %s" % (en, theorem_name(en), mod), {"entry": en}, False)
+    if len(index) < 429 and not missing:
+        chk.fail(name, "coverage:entries", "the extraction table shrank to %d entries (429 when this check was written)" % len(index), {}, False)
+    # (a missing theorem is reported by check_theorems through `required=` with key missing:<name>)
+
+    def search_cast(name_):
+        # conversion theorems: replay pairwise distinct, non-float-representable numbers at double -> float and compare slot by slot
+        fn = name_.replace("_", ".", 1)
+        d = next((x for x in index if x["name"] == fn), None)
+        if not d:
+            return None
+        params = [p.partition(":") for p in (d.get("params") or "").split(",") if p]
+        kind = fn.split(".")[1]
+        src_name = "b" if kind.startswith("narrowSet") else "a"
+        vals, src_vals, k = [], [], 0
+        for pn, _, sh in params:
+            for _ in range(troute.ARITY[sh].count("%s")):
+                k += 1
+                v = k + 0.1 + k * 2.0 ** -30
+                vals.append(v)
+                if pn == src_name:
+                    src_vals.append(v)
+        rc_, o = lib.sh([bins["sym_c04"], "real", fn] + ["%r" % v for v in vals])
+        mm = re.search(r"vals=([-0-9.e+ infa]*?)ints=", o)
+        if not mm:
+            return None
+        got = [float(x) for x in mm.group(1).split()]
+        exp = [f32(x) for x in src_vals]
+        if fn == "V4.narrowFromV3":
+            exp = exp + [1.0]
+        if fn == "Shear6.narrowFromV3":
+            exp = (exp + [0.0, 0.0, 0.0]) * 2
+        if got == exp:
+            return None
+        return {"key": "theorem:" + name_, "function": fn, "element_types": "double -> float", "inputs_in_parameter_order": vals,
+                "real_code_result": got, "slotwise_static_cast_of_the_source": exp, "real_code_at_double": o.strip().split("\n")[-1]}
+
+    def search(name_):
+        if "_narrow" in name_:
+            return search_cast(name_)
+        return troute.lean_search(chk, "ImathVerif.Props.C04", name_, IMPORTS, ["ImathVerif"], binary=bins["sym_c04"])
+    chk.check_theorems("ImathVerif.Props.C04", required=required["ImathVerif.Props.C04"], search=search)
+
+    def search_show(name_):
         # executable form of the stream-output statement: print a value with distinct components through the
         # real operator<< and tokenise on whitespace / parentheses: one token per component, in order
-        import re
-        ty, _, st = name.partition("_")
+        ty, _, st = name_.partition("_")
         n = {"V2": 2, "V3": 3, "V4": 4, "C3": 3, "C4": 4, "Shear6": 6, "Quat": 4, "M22": 4, "M33": 9, "M44": 16}.get(ty)
         if not n:
             return None
         vals = [str(k + 1) for k in range(n)]
-        rc, out = lib.sh([bins["sym_c04"], "real", "%s.%s" % (ty, st)] + vals)
-        m = re.search(r"text=(.*)", out)
-        if not m:
+        rc_, o = lib.sh([bins["sym_c04"], "real", "%s.%s" % (ty, st)] + vals)
+        if st == "showKeepsState":
+            mm = re.search(r"ints=(\d+)", o)
+            if mm and mm.group(1) == "0":
+                return {"key": "theorem:" + name_, "value_components": vals, "real_code_at_double": o.strip().split("\n")[-1],
+                        "what": "after `os << value` the stream's flags / precision / fill / width differ from before"}
             return None
-        text = m.group(1).replace("\\n", "\n")
+        m_ = re.search(r"text=(.*)", o)
+        if not m_:
+            return None
+        text = m_.group(1).replace("\\n", "\n")
         toks = [t for t in re.split(r"[\s()]+", text) if t]
-        ok = len(toks) == n and all(abs(float(t) - (k + 1)) < 1e-9 for k, t in enumerate(toks))
-        if ok:
+        ok_ = len(toks) == n and all(abs(float(t) - (k + 1)) < 1e-9 for k, t in enumerate(toks))
+        if ok_:
             return None
-        return {"key": "theorem:" + name, "value_components": vals, "printed_by_real_operator<<": m.group(1),
+        return {"key": "theorem:" + name_, "value_components": vals, "printed_by_real_operator<<": m_.group(1),
                 "tokens": toks, "expected_token_count": n}
-    chk.check_theorems("ImathVerif.Props.C04Show", search=search_show)
+    chk.check_theorems("ImathVerif.Props.C04Show", required=required["ImathVerif.Props.C04Show"], search=search_show)
 
-    def search_alias(name):
-        return troute.lean_search(chk, "ImathVerif.Props.C04Alias", name, ["ImathVerif.Basic.Maps", "ImathVerif.Gen.C04Alias"],
+    def search_alias(name_):
+        return troute.lean_search(chk, "ImathVerif.Props.C04Alias", name_, ["ImathVerif.Basic.Maps", "ImathVerif.Gen.C04Alias"],
                                   ["ImathVerif"], binary=bins["sym_c04"])
-    chk.check_theorems("ImathVerif.Props.C04Alias", search=search_alias)
+    chk.check_theorems("ImathVerif.Props.C04Alias", required=required["ImathVerif.Props.C04Alias"], search=search_alias)
     per = {}
     for d in index:
         per[d["name"].split(".")[0]] = per.get(d["name"].split(".")[0], 0) + 1
